@@ -74,6 +74,19 @@ def m_y_plus(frame, dip):
     return np.array([0.0, cd(dip), sd(dip)])
 
 
+# Options applied by the weighted estimators (Davenport, QUEST, FLAE, OLEQ); set by the caller around a case via set_weights().
+OPTS = {'weights': None}
+
+
+def set_weights(w):
+    OPTS['weights'] = None if w is None else [float(w[0]), float(w[1])]
+
+
+def _wkw():
+    """keyword dict with a fresh array of the weights of the current case (nothing when the defaults are wanted)"""
+    return {} if OPTS['weights'] is None else {'weights': np.array(OPTS['weights'], dtype=float)}
+
+
 def build_rows():
     import ahrs
     from ahrs.filters import TRIAD, Davenport, QUEST, FLAE, OLEQ, SAAM, FAMC, FQA, Tilt, AQUA
@@ -101,22 +114,22 @@ def build_rows():
 
     # --- Davenport / QUEST
     add('Davenport', 'inv', _Z(1), m_x_plus_ned_only,
-        lambda acc, mag, frame, dip: Davenport(magnetic_dip=dip).estimate(A(acc), A(mag)),
-        lambda ACC, MAG, frame, dip: Davenport(A(ACC), A(MAG), magnetic_dip=dip).Q, cls='A')
+        lambda acc, mag, frame, dip: Davenport(magnetic_dip=dip, **_wkw()).estimate(A(acc), A(mag)),
+        lambda ACC, MAG, frame, dip: Davenport(A(ACC), A(MAG), magnetic_dip=dip, **_wkw()).Q, cls='A')
     add('QUEST', 'inv', _Z(1), m_x_plus_ned_only,
-        lambda acc, mag, frame, dip: QUEST(magnetic_dip=dip).estimate(A(acc), A(mag)),
-        lambda ACC, MAG, frame, dip: QUEST(A(ACC), A(MAG), magnetic_dip=dip).Q, cls='B')
+        lambda acc, mag, frame, dip: QUEST(magnetic_dip=dip, **_wkw()).estimate(A(acc), A(mag)),
+        lambda ACC, MAG, frame, dip: QUEST(A(ACC), A(MAG), magnetic_dip=dip, **_wkw()).Q, cls='B')
 
     # --- FLAE, three modes (eigen mode is singularity free)
     for method, cls in (('eig', 'A'), ('symbolic', 'B'), ('newton', 'B')):
         add(f'FLAE[{method}]', 'inv', _Z(1), m_flae,
-            (lambda method: lambda acc, mag, frame, dip: FLAE(magnetic_dip=dip).estimate(A(acc), A(mag), method=method))(method),
-            (lambda method: lambda ACC, MAG, frame, dip: FLAE(A(ACC), A(MAG), method=method, magnetic_dip=dip).Q)(method), cls=cls)
+            (lambda method: lambda acc, mag, frame, dip: FLAE(magnetic_dip=dip, **_wkw()).estimate(A(acc), A(mag), method=method))(method),
+            (lambda method: lambda ACC, MAG, frame, dip: FLAE(A(ACC), A(MAG), method=method, magnetic_dip=dip, **_wkw()).Q)(method), cls=cls)
 
     # --- OLEQ (random start vector: caller seeds numpy's global generator)
     add('OLEQ', 'inv', _zf(-1, 1), m_x_plus,
-        lambda acc, mag, frame, dip: OLEQ(magnetic_ref=float(oleq_param(frame, dip)), frame=frame).estimate(A(acc), A(mag)),
-        lambda ACC, MAG, frame, dip: OLEQ(A(ACC), A(MAG), magnetic_ref=float(oleq_param(frame, dip)), frame=frame).Q, cls='B', frames=('NED', 'ENU'), seeded=True)
+        lambda acc, mag, frame, dip: OLEQ(magnetic_ref=float(oleq_param(frame, dip)), frame=frame, **_wkw()).estimate(A(acc), A(mag)),
+        lambda ACC, MAG, frame, dip: OLEQ(A(ACC), A(MAG), magnetic_ref=float(oleq_param(frame, dip)), frame=frame, **_wkw()).Q, cls='B', frames=('NED', 'ENU'), seeded=True)
 
     # --- SAAM / FAMC: references implied by the data (gravity +z, field in the x-z plane)
     add('SAAM[quaternion]', 'fwd', _Z(1), m_x_plus_ned_only,
